@@ -73,6 +73,9 @@ func oracleC01(o *Outcome) []Violation {
 			continue
 		}
 		hfp := hfpSeconds(cfg, cacheOf(cfg, c0.Addr))
+		if o.Plan.purges(key) {
+			continue // a purged key may legitimately be fetched again at any time (stated exception)
+		}
 		for i, u1 := range ups {
 			if !surelyFetcher(o, u1, hfp) {
 				continue
@@ -109,7 +112,7 @@ func oracleC01(o *Outcome) []Violation {
 			continue
 		}
 		f := o.reqOfTask(v.R.ReleasedBy)
-		if f == nil || f.Key != v.R.Key || len(f.Ups) != 1 {
+		if f == nil || f.Key != v.R.Key || len(f.Ups) != 1 || o.Plan.purges(v.R.Key) {
 			continue
 		}
 		u := o.Hist.Ups[f.Ups[0]]
@@ -144,4 +147,13 @@ func fetcherStored(o *Outcome, u *UpRec) bool {
 		return false
 	}
 	return c.Res.Status == u.Call.status && c.Res.Header.Get("X-Sim-Echo") != ""
+}
+
+func (p *Plan) purges(key string) bool {
+	for _, op := range p.Ops {
+		if op.Kind == OpPurge && op.Key == key {
+			return true
+		}
+	}
+	return false
 }
